@@ -148,12 +148,16 @@ func numToStr(r *big.Rat) string {
 }
 
 // toStr: conversion of a primitive to string (template parts, object keys, string params).
+// lineStripMode is set only while the defect model runs (classification of a mismatch):
+// there a possibly-negative zero prints as "0".
+var lineStripMode bool
+
 func toStr(v Val) (string, *refErr) {
 	switch v.K {
 	case KStr:
 		return v.S, nil
 	case KNum:
-		if v.NZ {
+		if v.NZ && !lineStripMode {
 			ood("number->string conversion of a zero that may be negative zero in the float library")
 		}
 		return numToStr(v.N), nil
@@ -894,7 +898,9 @@ func (ev *refEval) call(n *Node, sc *scope) (Val, *refErr) {
 // runRef evaluates a tree in an environment; recovers the out-of-domain signal.
 func runRef(root *Node, env map[string]Val, lineStrip bool) (val Val, err *refErr, oodWhy string, faultHit bool) {
 	ev := &refEval{env: env, lineStrip: lineStrip, tcache: map[*Node][]*TPart{}}
+	lineStripMode = lineStrip
 	defer func() {
+		lineStripMode = false
 		if r := recover(); r != nil {
 			if o, ok := r.(oodPanic); ok {
 				oodWhy = o.why
